@@ -200,3 +200,53 @@ def replay(doc, orch):
     exp = (doc.get("expected") or {}).get("trace_sha256")
     txt = "trace sha256 recorded %s replayed %s\n" % (str(exp)[:16], res["res"]["trace_sha"][:16])
     return bool(v), txt + "\n".join(t for _, _, t in v)
+
+
+def minimise_doc(doc, orch, max_evals=40):
+    """session-level minimisation: fewer actors, then a shorter recorded schedule (picks beyond a prefix fall back to
+    'lowest slot first'), keeping a step only while the same clause and symptom reproduce"""
+    import copy
+
+    def reproduces(d):
+        ok, txt = replay(d, orch)
+        return ok and (doc["attrs"].get("symptom", "").split("@")[0].split(":")[-1] in txt or not doc["attrs"].get("symptom"))
+    evals = 1
+    if not reproduces(doc):
+        return doc, {"minimised": False, "reason": "did not reproduce on re-execution", "evals": evals}
+    steps = []
+    cur = copy.deepcopy(doc)
+    # 1. drop actors of the last (concurrent) step
+    progress = True
+    while progress and evals < max_evals:
+        progress = False
+        acts = cur["session"]["steps"][-1]["run"]
+        if len(acts) <= 2:
+            break
+        for i in range(len(acts)):
+            cand = copy.deepcopy(cur)
+            del cand["session"]["steps"][-1]["run"][i]
+            cand["picks"] = None      # the recorded schedule no longer applies: fall back to the generating policy
+            evals += 1
+            if reproduces(cand):
+                cur = cand
+                steps.append("drop actor %d" % i)
+                progress = True
+                break
+    # 2. shorten the recorded schedule of the last step
+    if cur.get("picks"):
+        pk = cur["picks"][-1]
+        n = len(pk)
+        keep = n
+        while keep > 1 and evals < max_evals:
+            half = keep // 2
+            cand = copy.deepcopy(cur)
+            cand["picks"][-1] = pk[:half]
+            evals += 1
+            if reproduces(cand):
+                keep = half
+                cur = cand
+                pk = cand["picks"][-1]
+                steps.append("schedule prefix %d" % half)
+            else:
+                break
+    return cur, {"minimised": True, "steps": steps, "evals": evals}
